@@ -294,7 +294,7 @@ CHAIN_W = ["XZWriter::prepare_next_block -> contract stub: block start recorded,
 U(id="C02.xz.empty", props=["C02", "C03"], file="xz/writer.rs", features=NOSTD, harnesses=["c02_xz_finish_empty_stream"],
   functions=[("src/xz/writer.rs", "finish", "XZWriter"), ("src/xz/writer.rs", "finish_current_block"), ("src/xz/writer.rs", "write_index"), ("src/xz/writer.rs", "write_stream_footer")],
   contract="finish() on a writer that received no data emits stream header | index with 0 records | footer (32 bytes, xz-file-format 2.1)")
-U(id="C18.xz.step", props=["C18", "C02", "C07"], file="xz/writer.rs", features=NOSTD, harnesses=["c18_xz_write_step2_e1_lim", "c18_xz_write_step2_e3_unl"], contract_stubs=CHAIN_W,
+PARK(id="C18.xz.step", props=["C18", "C02", "C07"], file="xz/writer.rs", features=NOSTD, harnesses=["c18_xz_write_step2_e1_lim", "c18_xz_write_step2_e3_unl"], contract_stubs=CHAIN_W,
   functions=[("src/xz/writer.rs", "write", "Write for XZWriter"), ("src/xz/writer.rs", "should_finish_block"), ("src/xz/writer.rs", "finish_current_block"), ("src/xz/writer.rs", "new", "XZWriter")],
   contract="inductive step: from any in-block state with u<=limit bytes, write(n) for any n<=9000: every block <= max(block_size,dict_size), blocks partition the bytes in order, no empty block, one index record per finished block with its byte count and unpadded size = header+compressed+check")
 U(id="C04.lzip.member", props=["C04", "C06", "C03", "C02"], file="lzip/reader.rs",
